@@ -243,6 +243,10 @@ CHECKS = {"C06": check_C06}
 
 
 # ------------------------------------------------------------------------------------------------ policy streams
+# the documented architecture names (README / arch.GetInfo): what each spelling denotes
+ALIASES = {"X86_64": ["amd64", "x86_64"], "I386": ["386", "i386"], "ARM": ["arm"], "AARCH64": ["arm64", "aarch64"], "X32": ["x32"]}
+
+
 def policy_stream(ctx, prop, kinds, npol, nev, arches=None, defects=None, le_choices=(0, 1), replay=None,
                   defect_share=0.0, foreign_share=0.15, extra_cases=None, x32_share=0.0, goarch=None, salt=0):
     """Generate policies of the given kinds, compile them with the implementation and the model, and run the
@@ -280,6 +284,9 @@ def policy_stream(ctx, prop, kinds, npol, nev, arches=None, defects=None, le_cho
                 atok = "NATIVE"      # the library resolves the architecture itself (public API path)
             elif r < 0.24:
                 atok = "%s>%s" % (rng.choice([a for a in PolicyGen.TABLE_ARCHES if a != an]), an)   # same value assembled for another architecture first
+            elif r < 0.32 and an in ALIASES:
+                sp = "".join(ch.upper() if rng.random() < 0.3 else ch for ch in rng.choice(ALIASES[an]))
+                atok = "G:%s>%s" % (sp, an)          # looked up by (documented) name through arch.GetInfo
             meta[cid]["arch_token"] = atok
             lines.append("P %s %d %s %s" % (cid, le, atok, PolicyGen.tokens(pol)))
             if nev:
@@ -354,8 +361,8 @@ def check_C01(ctx, replay=None):
     check_core_policy(ctx, "C01", "C01.v", ["C01_first_matching_group", "C01_errno_carries_eperm", "C01_other_actions_exact",
                                             "C01_lists_means_name_with_that_number", "C01_first_in_policy_order", "C01_source_group_is_the_model",
                                             "C01_source_return_value_is_the_model"],
-                      ["names", "names", "names_long", "whole_table", "degenerate"],
-                      "name-only policies (1..6 groups, 0..|table| names, all four tables, both byte orders), compiled by the implementation and the extracted model (instruction-exact comparison); every accepted program run on partition events (numbers of all listed names +-1, boundary numbers, foreign architectures) against the extracted decide; non-trivial = accepted policy with events evaluated",
+                      ["names", "names", "names", "names_long", "names_long", "whole_table", "degenerate", "degenerate", "mixed", "cond"],
+                      "name-only policies (1..6 groups, 0..|table| names, all four tables, both byte orders) and, at a share of one in five, policies whose groups also hold conditional entries (an entry whose conditions fail does not list the syscall: a later group does), compiled by the implementation and the extracted model (instruction-exact comparison); every accepted program run on partition events (numbers of all listed names +-1, boundary numbers, foreign architectures) against the extracted decide; non-trivial = accepted policy with events evaluated",
                       replay=replay, gen=gen)
 
 
@@ -455,8 +462,9 @@ def check_C04(ctx, replay=None):
                       ["C04_foreign_arch_default", "C04_x32_enosys", "C04_independent_of_rules", "C04_prologue_both_encodings",
                        "C04_source_layout_is_the_model", "C04_source_x32_guard_is_the_model", "C04_nonvacuous"],
                       ["names", "names_long", "names_long", "names_long", "cond", "mixed", "mixed_long", "condlong", "degenerate", "whole_table"],
-                      "policies of every kind sized so that the architecture jump distance straddles 255/256 (name lists of 245..260 and longer, conditional entries), all four tables; compared with the extracted model on the prologue, the instruction the architecture jump lands on and the x32 guard; every accepted program run ONLY on events of a foreign architecture (all audit ids of the package, bit flips of the native id, random words) and, natively, numbers with the x32 bit (0x40000000, |n, 0xFFFFFFFF, ...) or just below it, against the extracted decide; non-trivial = accepted policy with events evaluated",
-                      replay=replay, npol=(400, 4000), nev=(40, 80), foreign_share=0.6, x32_share=0.4, diff_filter=differs, gen=gen)
+                      "policies of every kind sized so that the architecture jump distance straddles 255/256 (name lists of 245..260 and longer, conditional entries), all four tables and the x32 table (same audit word as x86_64: the guard applies); compared with the extracted model on the prologue, the instruction the architecture jump lands on and the x32 guard; every accepted program run ONLY on events of a foreign architecture (all audit ids of the package, bit flips of the native id, random words) and, natively, numbers with the x32 bit (0x40000000, |n, 0xFFFFFFFF, ...) or just below it, against the extracted decide; non-trivial = accepted policy with events evaluated",
+                      replay=replay, npol=(400, 4000), nev=(40, 80), foreign_share=0.6, x32_share=0.4, diff_filter=differs, gen=gen,
+                      arches=PolicyGen.TABLE_ARCHES * 2 + ["X32"])
 
 
 # ------------------------------------------------------------------------------------------------ C05
